@@ -32,6 +32,7 @@ func TestMain(m *testing.M) {
 		"Expected texts come from strconv + own padding, not from fmt. 'Cleared' is observed as *name == namepool.Name{} and Name()/String() == \"\". " +
 		"'Makes its id available again' is only observed (label id-reused): sync.Pool may drop items (always after two GCs, randomly under -race). " +
 		"Data races are reported by the race detector through the driver, the harness mutex adds happens-before edges only between monitor updates")
+	vh.Rule("also: 1..3 goroutines acquiring from OTHER pools (other formats) during the concurrent executions, their texts checked too; sequential histories that start three ids below 2^16, 2^31, 2^32 (hook VerifSkipIDs)")
 	vh.Main(m, "C18")
 }
 
